@@ -202,6 +202,7 @@ class Engine(Core, Expr, Calls, Builtins, Stmts):
         self.loop_ids = {}
         self.func_summ = set()
         self.notes = []
+        self.exit_pcs = None
         self.lemma_sink = None
         self.hashable_terms = set()
         self.mutable_terms = set()
@@ -368,6 +369,10 @@ class Engine(Core, Expr, Calls, Builtins, Stmts):
                                          path_kind='raise'))
             else:
                 raise OutOfSubset(f'{kind} escaped the function body')
+        self.exit_pcs = [list(s.pc) for k, _v, s in outs if k in ('return', 'fall')] + [list(s.pc) for k, _v, s in outs if k == 'raise']
+        if con.no_raise is not None and not any(k == 'raise' for k, _v, _s in outs):
+            self.emit(Obligation(con.key, 'exc', 'none', con.no_raise, [], z3.BoolVal(True),
+                                 origin='no exceptional exit exists on any path', path_kind='return'))
         n_ret = sum(1 for k, _v, _s in outs if k in ('return', 'fall'))
         n_raise = sum(1 for k, _v, _s in outs if k == 'raise')
         return {'key': con.key, 'paths': len(outs), 'returns': n_ret, 'raises': n_raise, 'exec_s': time.time() - t0,
